@@ -12,11 +12,11 @@ RULE = ("Cases are implementation steps (one handler invocation or one EndBlocke
         "distinct = distinct (event, outcome, branch) classes among those.")
 
 ASSUMPTIONS = [
-    "infinite gas; ante-handler fees not modelled; block time non-decreasing; parameters change only through the SetParams environment action (Keeper.SetParams, as x/params does), never to values the parameter validators reject",
+    "infinite gas; ante-handler fees not modelled; block time non-decreasing; parameters change only through the SetParams environment action (x/params Subspace.Update with the module's validators, as a parameter-change proposal does; proposals the validators refuse are part of the histories)",
     "only the service module, x/bank and x/auth of the repository's simapp are exercised; MockTokenKeeper (base denomination only)",
     "amounts, heights and times below 2^31 (TLC integers); discounts with at most 2, tax and slash fraction with at most 3 fractional digits, where the integer model and sdk.Dec agree exactly",
     "trusted base: TLC 1.8.0, CommunityModules Json, the Go protobuf decoders, x/bank, the harness's projection",
-    "failed messages are rolled back by the harness with CacheContext, as baseapp does",
+    "failed messages - and transactions of several messages of which one fails - are rolled back by the harness with CacheContext, as baseapp does",
 ]
 
 # event classes each property speaks about (prefix match on the class label)
